@@ -1356,6 +1356,11 @@ def serialize_set(obj):
 			'type': 'set',
 			'elements': list(obj)
 		}
+	elif isinstance(obj, np.generic):
+		# NumPy scalars (e.g., int64) are not JSON serializable; convert to native Python numbers.
+		return obj.item()
+	elif isinstance(obj, np.ndarray):
+		return obj.tolist()
 
 
 def deserialize_set(obj):
